@@ -33,3 +33,11 @@ size_t strlcpy(char *dst, const char *src, size_t size)
 	return res;
 }
 #endif
+
+#if DISPATCH_VERIF
+// Verification hooks (guard: DISPATCH_VERIF), see src/shims/atomic.h and
+// src/shims/yield.h. NULL means "no scheduler attached": hooks are no-ops.
+void (*_dispatch_verif_atomic_hook)(const volatile void *addr, int kind,
+		int order);
+void (*_dispatch_verif_spin_hook)(void);
+#endif // DISPATCH_VERIF
